@@ -165,7 +165,7 @@ class World:
 
     MLENS = [0, 1, 32, 55, 56, 63, 64, 65, 200, 2100, 65500, 66000, 1000003]     # beyond the 16-bit lengths of expand_message_xmd too
 
-    def __init__(self, seed, nonempty_m1=False, empty_m1=False):
+    def __init__(self, seed, nonempty_m1=False, empty_m1=False, long_tail=False):
         ob = _W["ob"]
         self.rng = random.Random(seed)
         self.r = ob.curve_order
@@ -182,6 +182,9 @@ class World:
         self.rng.shuffle(ms)
         if nonempty_m1 and not ms[0]:       # "K1m1" (= PK || m1) must differ from "K1" (= PK) as bytes
             ms[0], ms[1] = ms[1], ms[0]
+        if long_tail:       # three long messages that differ only beyond the first 64 KiB
+            base_ = self.rng.randbytes(70000)
+            ms = [base_, base_[:-1] + bytes([base_[-1] ^ 1]), base_[:65536]]
         if empty_m1 and not nonempty_m1:
             ms = [b""] + [x for x in ms if x][:2]
             while len(ms) < 3:
@@ -382,7 +385,7 @@ def _run_scenario(job):
     log = _W["log"]
     row = {"op": "run", "sc": sc, "got": 0, "raised": 0, "pair": [], "idx": idx, "steps": [], "stepsok": 0}
     try:
-        w = World(seed, nonempty_m1="K1m1" in json.dumps(sc), empty_m1=bool(sc.get("empty_m1")))
+        w = World(seed, nonempty_m1="K1m1" in json.dumps(sc), empty_m1=bool(sc.get("empty_m1")), long_tail=bool(sc.get("long_tail")))
         w.flipbit = sc["sig"].get("bit")
         S = _W["suites"][sc["suite"]]
         pks = [w.key_bytes(pk) for pk in sc["pks"]]
@@ -445,7 +448,7 @@ def _run_scenario(job):
     return row
 
 
-SK_CLASSES = ["1", "2", "mid", "bits", "r-2", "r-1", "0", "r", "r+1", "-1", "2^255", "2r", "nonint", "bandpk", "bandsig"]
+SK_CLASSES = ["1", "2", "mid", "bits", "r-2", "r-1", "0", "r", "r+1", "-1", "2^255", "2r", "nonint", "bandpk", "bandsig", "intsub"]
 
 
 def _run_seq(job):
@@ -558,11 +561,17 @@ def _run_sk(job):
     band = None
     if cls in ("bandpk", "bandsig"):
         band = _band_search(rng, cls, suite, want_top=(idx % 3 != 2))
-    val = {"1": 1, "2": 2, "mid": rng.getrandbits(128) | 1, "bits": pattern, "bandpk": band and band[0], "bandsig": band and band[0],
+    val = {"1": 1, "2": 2, "mid": rng.getrandbits(128) | 1, "bits": pattern, "bandpk": band and band[0], "bandsig": band and band[0], "intsub": 1,
            "r-2": r - 2, "r-1": r - 1, "0": 0, "r": r, "r+1": r + 1, "-1": -1, "2^255": 2 ** 255, "2r": 2 * r,
            "nonint": rng.choice(["1", 1.0, None, b"\x01", (1,)])}[cls]
     if cls == "bits":
         val = min(max(val, 1), r - 1)
+    if cls == "intsub":         # an integer of an int SUBCLASS (not bool): a valid secret key like any other int
+        import enum
+
+        class _U256(int):
+            pass
+        val = rng.choice([_U256(rng.randrange(1, r)), enum.IntEnum("K", {"A": rng.randrange(1, r)}).A, _U256(1), _U256(r - 1)])
     if cls == "nonint":
         # values that compare / hash equal to a valid key used just before in the same interpreter, and
         # unhashable ones: every one of them must be refused with ValidationError by every entry point
@@ -600,6 +609,15 @@ def _run_sk(job):
                 row["exc"] = "BADVALUE:Sign accepted a key SkToPk refused"
             except ValidationError:
                 pass
+            # ... however the key is handed over (keyword arguments, if the parameters still have these names)
+            for fn, kw in ((S.SkToPk, {"privkey": val}), (S.Sign, {"SK": val, "message": msg})):
+                try:
+                    fn(**kw)
+                    row["exc"] = f"BADVALUE:{fn.__name__} accepted a key passed by keyword that it refuses positionally"
+                except ValidationError:
+                    pass
+                except TypeError:         # another parameter name: not this check's business
+                    pass
             if suite == "pop":
                 try:
                     S.PopProve(val)
@@ -797,6 +815,18 @@ def run(ctx: Ctx, focus):
                 extra.append({"entry": "AggregateVerify", "suite": s_, "pks": [vk_("K1"), vk_("K2")], "msgs": ["m1", "m2"],
                               "empty_m1": 1, "note": "canonical",
                               "sig": {"cls": "valid", "desc": [_sign_t(s_, "K1", "m1"), _sign_t(s_, "K2", "m2")]}})
+    if focus in ("C02", "C03"):
+        # messages that differ only beyond the first 64 KiB (m2 = m1 with the last byte changed, m3 = m1 truncated)
+        vk_ = lambda k: {"cls": "valid", "key": k}      # noqa: E731
+        for s_ in ("basic", "pop"):
+            for other in ("m2", "m3"):
+                if focus == "C02":
+                    extra.append({"entry": "Verify", "suite": s_, "pks": [vk_("K1")], "msgs": ["m1"], "long_tail": 1,
+                                  "sig": {"cls": "valid", "desc": [_sign_t(s_, "K1", other)]}, "note": "other_message"})
+                else:
+                    extra.append({"entry": "AggregateVerify", "suite": s_, "pks": [vk_("K1"), vk_("K2")], "msgs": ["m1", other],
+                                  "long_tail": 1, "note": "substituted_message",
+                                  "sig": {"cls": "valid", "desc": [_sign_t(s_, "K1", other), _sign_t(s_, "K2", "m1")]}})
     base = len(jobs)
     jobs += [(base + i, ctx.seed * 104729 + i, sc) for i, sc in enumerate(extra)]
     chains = []
